@@ -24,16 +24,20 @@ JOURNAL_DDL = "CREATE TABLE IF NOT EXISTS j(id text)"
 # ------------------------------------------------------------------------------------------------
 # workload model
 # ------------------------------------------------------------------------------------------------
-def make_shape(name, sizes, kinds=None, directives=None, rnd=None, p_ddl=0.25):
+def make_shape(name, sizes, kinds=None, directives=None, rnd=None, p_ddl=0.25, checkpoints=()):
     """sizes: statements per file. kinds: optional list of strings like "DII" (D = ddl, I = journal
     insert) per file; otherwise drawn from rnd (or all inserts). The very first statement of the first
-    file always creates the journal table. directives: optional {file index (0-based): "none"|"file"}."""
+    file always creates the journal table. directives: optional {file index (0-based): "none"|"file"}.
+    checkpoints: indexes of files carrying `-- atlas:checkpoint`. On a fresh database a run starts at the LAST
+    checkpoint: every file before it (older files, older checkpoints) is `skipped` - never executed, never
+    recorded - and the journal table is created by the first statement of the first file that does run."""
     files = []
+    first = max(checkpoints) if checkpoints else 0
     for fi, n in enumerate(sizes):
         stmts = []
         for si in range(n):
             sid = "f%ds%d" % (fi + 1, si + 1)
-            if fi == 0 and si == 0:
+            if fi == first and si == 0:
                 stmts.append({"id": sid, "kind": "ddl", "table": "j", "sql": JOURNAL_DDL})
                 continue
             if kinds is not None:
@@ -54,6 +58,10 @@ def make_shape(name, sizes, kinds=None, directives=None, rnd=None, p_ddl=0.25):
                 stmts.append({"id": sid, "kind": "dml", "sql": "INSERT INTO j(id) VALUES('%s')" % sid})
         files.append({"name": "%d_f%d.sql" % (fi + 1, fi + 1), "version": str(fi + 1),
                       "directive": (directives or {}).get(fi), "stmts": stmts})
+        if fi in checkpoints:
+            files[-1]["checkpoint"] = True
+        if fi < first:
+            files[-1]["skipped"] = True
     return {"name": name, "files": files}
 
 
@@ -61,7 +69,8 @@ def relaxed(shape, name):
     """The same shape with every non-idempotent DDL made idempotent (for none-mode)."""
     kinds = ["".join("I" if s["kind"] == "dml" else "D" for s in f["stmts"]) for f in shape["files"]]
     return make_shape(name, [len(f["stmts"]) for f in shape["files"]], kinds=kinds,
-                      directives={i: f["directive"] for i, f in enumerate(shape["files"]) if f.get("directive")})
+                      directives={i: f["directive"] for i, f in enumerate(shape["files"]) if f.get("directive")},
+                      checkpoints=[i for i, f in enumerate(shape["files"]) if f.get("checkpoint")])
 
 
 def shape_files(shape):
@@ -69,8 +78,12 @@ def shape_files(shape):
     out = {}
     for f in shape["files"]:
         txt = ""
+        if f.get("checkpoint"):
+            txt += "-- atlas:checkpoint\n"
         if f.get("directive"):
-            txt += "-- atlas:txmode %s\n\n" % f["directive"]
+            txt += "-- atlas:txmode %s\n" % f["directive"]
+        if txt:
+            txt += "\n"
         for s in f["stmts"]:
             txt += s["sql"] + ";\n"
         if not f["stmts"]:
@@ -81,7 +94,7 @@ def shape_files(shape):
 
 def shape_sig(shape):
     return "%s[%s]" % (shape["name"], ",".join(
-        ("".join(("X" if s.get("strict") else "D") if s["kind"] == "ddl" else "I" for s in f["stmts"]) or "-") + (":" + f["directive"] if f.get("directive") else "")
+        ("^" if f.get("checkpoint") else "") + ("".join(("X" if s.get("strict") else "D") if s["kind"] == "ddl" else "I" for s in f["stmts"]) or "-") + (":" + f["directive"] if f.get("directive") else "")
         for f in shape["files"]))
 
 
@@ -148,6 +161,8 @@ def applied_of(obs, f):
 
 
 def is_pending(obs, f):
+    if f.get("skipped"):
+        return False  # older than the last checkpoint: never part of any run
     r = obs["revs"].get(f["version"])
     return r is None or r["applied"] < len(f["stmts"])
 
@@ -274,6 +289,9 @@ def _final_check(vd, shape, glob, obs, where):
         em = eff_mode(glob, f)
         r = obs["revs"].get(f["version"])
         n = len(f["stmts"])
+        if f.get("skipped"):
+            _skipped_check(vd, shape, glob, obs, f, where)
+            continue
         if r is None or r["applied"] != n or r["total"] != n or r["error"]:
             vd.v("incomplete-revision-after-rerun|global=%s|eff=%s" % (glob, em),
                  "%s: revision of %s is %s, expected %d/%d without error" % (where, f["name"], r, n, n),
@@ -299,6 +317,15 @@ def _final_check(vd, shape, glob, obs, where):
         vd.v("alien-state|global=%s" % glob, "%s: unexpected rows: %s" % (where, obs["alien"][:4]), state=brief(shape, obs))
 
 
+def _skipped_check(vd, shape, glob, obs, f, where):
+    """A file older than the last checkpoint is neither executed nor recorded (fresh database)."""
+    ran = [s["id"] for s in f["stmts"] if obs["counts"][s["id"]] and not (s["kind"] == "ddl" and s["table"] == "j")]
+    if ran or f["version"] in obs["revs"]:
+        vd.v("file-before-checkpoint-executed|global=%s" % glob,
+             "%s: %s precedes the last checkpoint but has effects %s / revision %s" % (where, f["name"], ran, obs["revs"].get(f["version"])),
+             state=brief(shape, obs))
+
+
 def _crash_check(vd, shape, glob, prev, cur, kill):
     """State right after a kill (hot journal rolled back by the independent reader)."""
     tag = "after kill %s" % kill_name(kill)
@@ -308,6 +335,9 @@ def _crash_check(vd, shape, glob, prev, cur, kill):
         n = len(f["stmts"])
         r = cur["revs"].get(f["version"])
         rp = prev["revs"].get(f["version"])
+        if f.get("skipped"):
+            _skipped_check(vd, shape, glob, cur, f, tag)
+            continue
         # (1) the revision table never records a statement whose effect is not in the database
         if r is not None:
             if r["applied"] > n or r["total"] != n:
